@@ -33,7 +33,11 @@ SPEC = {
              "q / assign p again / save+load through json, yaml, bson, xml, pickle with challenges after each / hand-written "
              "plaintext documents in every format; plus per algorithm the shapes of _validate, to_python (14 malformed maps), "
              "create with given salts, parse, invalid defaults, required fields; then seeded random histories (3-9 operations) "
-             "over the same alphabet with lenient/invalid base64, foreign-algorithm digest values, lone surrogates. "
+             "over the same alphabet with lenient/invalid base64, foreign-algorithm digest values, lone surrogates; plus 28 secrets with "
+             "leading / trailing / inner / only whitespace (space, tab, newline, CRLF, NBSP, ideographic space, NEL, LS, BOM, ZWSP), "
+             "NUL and control characters and case variants on every route (assign, default, to_python, load by tree and by every "
+             "format measured to carry the text unchanged), each challenged with the exact text and with its stripped / re-cased / "
+             "re-spaced variants. "
              "non-trivial = some operation produced a digest value; distinct = distinct (field, default, stream, history)"),
     "trusted_base": [KERNEL, "Print Assumptions: closed under the global context (no axioms)", TIE, HARNESS,
                      "modelled, not verified: hashlib as a function H with |H a x| = digest_size a (theorems) and as a per-case "
